@@ -118,12 +118,15 @@ def main(modname):
 
     t0 = time.time()
     conformance = None
-    if hasattr(mod, 'conformance'):
-        try:
-            conformance = mod.conformance(seed)
-        except Exception:
-            print('INCONCLUSIVE property=%s conformance suite failed:\n%s' % (pid, traceback.format_exc()))
+    try:
+        from symx import conformance as _conf
+        conformance = _conf.run(seed, rounds=(6 if tier == 'quick' else 20))
+        if not conformance['ok']:
+            print('INCONCLUSIVE property=%s NumPy-model conformance suite failed: %s' % (pid, conformance['failures']))
             return 2
+    except Exception:
+        print('INCONCLUSIVE property=%s conformance suite crashed:\n%s' % (pid, traceback.format_exc()))
+        return 2
     cfgs = mod.configs(tier)
     if a.only:
         cfgs = [c for c in cfgs if a.only in json.dumps(c)]
